@@ -264,4 +264,44 @@ theorem fromParallel_sorted (l : List (Nat × Int)) :
     (l.zipIdx.map fun ((id, p), i) => (⟨id, p, i⟩ : Entry))
   simpa [fromParallel] using this
 
+/-- what the RLE stage of a patch can produce is bounded by its input: at most 128 bytes per input byte -/
+theorem rle_output_bounded (c : Bytes) (size : Nat) (skip : Bool) (out : Bytes)
+    (h : rleDecompress c size skip = some out) : out.length ≤ 128 * c.length := by
+  have hl := rle_length c size skip out h
+  unfold rleDecompress at h
+  split at h
+  · simp at h
+  · simp only at h
+    split at h <;> simp at h <;> (obtain ⟨hb, _⟩ := h; omega)
+
+/-- a BSD0 patch cannot make the decoder produce (or allocate) more than 128 bytes per byte of patch data, whatever
+    its header declares -/
+theorem bsd0_output_bounded (p : Patch) (base out : Bytes) (h : applyBsd0 p base = some out) :
+    out.length ≤ 128 * p.data.length := by
+  have hs := (applyBsd0_size p base out h).1
+  unfold applyBsd0 at h
+  split at h
+  · simp at h
+  split at h
+  · simp at h
+  rename_i d hd
+  have hdl := rle_output_bounded p.data p.dataSize true d hd
+  split at h
+  · simp at h
+  split at h
+  · simp at h
+  simp only at h
+  split at h
+  · simp at h
+  rename_i hns
+  split at h
+  · simp at h
+  rename_i hfit
+  split at h
+  · simp at h
+  rename_i hbound
+  simp only [List.length_take, List.length_drop] at hbound
+  have e2 : u64At d 24 = p.sizeAfter := by simpa using hns
+  omega
+
 end Wv.Chain
